@@ -14,11 +14,16 @@ case kinds
          ["fail", 0] on the first ValueError  |  ["other", name]
   {"mode": "chips", "chips": [[x, y, level or null], ...]}
       -> ["ok", [word, ...]]
+  compress / tree cases may carry "dtype": name of a numpy integer dtype (coordinates and core numbers are given as
+  numpy scalars of that type); compress cases may carry "raise_after": n (the mapping's iteration raises after n items)
+  {"mode": "tree_rw", "level": l, "ops": [["add", x, y, p] | ["read"], ...]}   one tree, traversed repeatedly
+      -> ["ok", [bool, ...], [[[region, coremask], ...] per read]]
   {"mode": "history", "calls": [case, ...]}   compress / tree cases run one after the other in ONE interpreter
       -> ["ok", [result of each call, ...]]
   {"mode": "enum4", "bx", "by", "a", "b", "cls", "lo", "hi"}   (thorough tier: exhaustive 4 x 4 block)
       -> ["ok", [[[region, coremask], ...] or exception name, ...]]   one entry per mask in range(lo, hi)
 """
+import operator
 from collections import OrderedDict
 
 from rig.machine_control.regions import (get_region_for_chip, compress_flood_fill_regions,
@@ -26,19 +31,45 @@ from rig.machine_control.regions import (get_region_for_chip, compress_flood_fil
 
 
 def plain(v):
-    if isinstance(v, bool) or not isinstance(v, int):
+    """The value of an emitted word / mask: any integral type is accepted, its VALUE is what is judged."""
+    if isinstance(v, bool):
         raise TypeError("not an int: %r" % (v,))
-    return int(v)
+    return operator.index(v)
+
+
+def conv(dtype):
+    """Coordinates / core numbers as given by the caller: Python ints or numpy scalars of one integer dtype."""
+    if not dtype:
+        return lambda v: v
+    import numpy
+    t = numpy.dtype(dtype).type
+    info = numpy.iinfo(dtype)
+    return lambda v: t(v) if info.min <= v <= info.max else v
+
+
+class RaisingMapping(OrderedDict):
+    """A user-supplied mapping whose iteration fails after `n` items."""
+    n = 0
+
+    def items(self):
+        for i, kv in enumerate(OrderedDict.items(self)):
+            if i >= self.n:
+                raise RuntimeError("iteration of the caller's mapping failed")
+            yield kv
 
 
 def run_case(c):
     if c["mode"] == "compress":
+        cv = conv(c.get("dtype"))
         targets = OrderedDict()
+        if c.get("raise_after") is not None:
+            targets = RaisingMapping()
+            targets.n = c["raise_after"]
         for x, y, cores in c["targets"]:
-            targets[(x, y)] = set(cores) if c["container"] == "set" else list(cores)
+            targets[(cv(x), cv(y))] = set(cv(p) for p in cores) if c["container"] == "set" else [cv(p) for p in cores]
         # the order in which compress_flood_fill_regions will meet the cores (same objects, same
         # iteration order: nothing is mutated in between)
-        order = [[x, y, p] for (x, y), cores in targets.items() for p in cores]
+        order = [[int(x), int(y), int(p)] for (x, y), cores in OrderedDict.items(targets) for p in cores]
         try:
             out = compress_flood_fill_regions(targets)
             out = [[plain(r), plain(m)] for r, m in out]
@@ -49,10 +80,11 @@ def run_case(c):
         return ["ok", order, out]
     if c["mode"] == "tree":
         try:
+            cv = conv(c.get("dtype"))
             t = RegionCoreTree(level=c["level"])
             rets = []
             for x, y, p in c["adds"]:
-                r = t.add_core(x, y, p)
+                r = t.add_core(cv(x), cv(y), cv(p))
                 if not isinstance(r, bool):
                     return ["other", "add_core returned %r" % (r,)]
                 rets.append(r)
@@ -62,6 +94,24 @@ def run_case(c):
         except Exception as e:
             return ["other", type(e).__name__]
         return ["ok", rets, out]
+    if c["mode"] == "tree_rw":
+        # ONE tree object: add_core calls interleaved with complete traversals
+        try:
+            t = RegionCoreTree(level=c["level"])
+            rets, reads = [], []
+            for op in c["ops"]:
+                if op[0] == "read":
+                    reads.append([[plain(r), plain(m)] for r, m in list(t.get_regions_and_coremasks())])
+                else:
+                    r = t.add_core(op[1], op[2], op[3])
+                    if not isinstance(r, bool):
+                        return ["other", "add_core returned %r" % (r,)]
+                    rets.append(r)
+        except ValueError:
+            return ["fail", 0]
+        except Exception as e:
+            return ["other", type(e).__name__]
+        return ["ok", rets, reads]
     if c["mode"] == "history":
         return ["ok", [run_case(call) for call in c["calls"]]]
     if c["mode"] == "chips":
